@@ -102,6 +102,7 @@ type DecSpec struct {
 	Style    int    `json:"style,omitempty"` // time style / size unit
 	Fmt      string `json:"fmt,omitempty"`
 	Age      int    `json:"age,omitempty"`
+	Mark     bool   `json:"mark,omitempty"` // wrap the output in {tag=...} so that it can be found in the row
 }
 
 // Texts used by probe decorators (index = DecSpec.Text); width varies.
@@ -257,6 +258,8 @@ const (
 	EvPhase    = "phase"
 	EvDecor    = "decor"
 	EvAvgAdj   = "avgadj"
+	EvDecNew   = "decnew"
+	EvAvgAdd   = "avg.add"
 )
 
 // SpyRec is the value of an EvSpy entry.
@@ -270,6 +273,7 @@ type SpyRec struct {
 	Aborted   bool
 	Avail     int
 	ReqWidth  int
+	T         int64 // simulated time of the Decor call
 }
 
 // FmtRec is the value of an EvFormat entry (one Format call of a probe decorator).
